@@ -495,6 +495,15 @@ func TestC07(t *testing.T) {
 			// the only deadlines that validate for all three proposal types at once: proposal-option updates can pass
 			p.PropFundingDL, p.PropVotingDL = 75000, 150000
 		}
+		// limit probes: main-net sized staking options, so that a staking-option proposal is refused or accepted on its own
+		// value alone (from small genesis values the rest of the option group never validates)
+		limitProbe := prof == "governance" && !propopts && u.N(3, "limitprobe") == 0
+		if limitProbe {
+			p.MinSelfDeleg, p.TopCount, p.Maturity = 500000, int64(8+u.N(3, "lp-top")), 109200
+			for i := range p.ValPower {
+				p.ValPower[i] = 500000 + int64(i)
+			}
+		}
 		role := hist.Roles(p, 2)[u.N(2, "role")]
 		tr := &hist.Trace{Params: p, Roles: []sim.Role{role}, Profile: prof}
 		if scripted {
@@ -608,6 +617,18 @@ func TestC07(t *testing.T) {
 						push(bnd, orig)
 					}
 				}
+			}
+			// a proposal whose value lies far outside its option's range is checked (and refused) in the mempool only; one whose
+			// value lies just outside the range is delivered in the next block: the refusal of the first must not move the limit
+			if limitProbe && u.N(3, "lp-now") == 0 {
+				pair := [][2]string{
+					{"stakingOptions.minSelfDelegationAmount:60000000", "stakingOptions.minSelfDelegationAmount:15000000"},
+					{"stakingOptions.minSelfDelegationAmount:100", "stakingOptions.minSelfDelegationAmount:499950"},
+					{"stakingOptions.minSelfDelegationAmount:10000001", "stakingOptions.minSelfDelegationAmount:10000000"},
+				}[u.N(3, "lp-pair")]
+				bnd := []string{"before-begin", "after-begin", "after-end", "after-commit"}[u.N(4, "lp-bnd")]
+				push(bnd, g.ProposalCreateCfg(pair[0]))
+				forgedLater = append(forgedLater, g.ProposalCreateCfg(pair[1]))
 			}
 			// the scripted config-update proposal has been voted on: check its PROPOSAL_FINALIZE (any account may sign it)
 			// between BeginBlock and the block's transactions, where the update functions' side effects would matter
